@@ -584,3 +584,50 @@ func AddTwinNamedPortPolicy(r *rng.R, w *World) {
 		return
 	}
 }
+
+// AddEverybodyPlusHoledRangeRule adds a policy on one workload whose single rule names every pod of the cluster AND an address block
+// with holes side by side - `namespaceSelector: {}` next to `ipBlock: {cidr: 0.0.0.0/0 (or another block), except: [...]}` - usually
+// without ports: "everybody" in pod terms must not be taken for everybody in address terms, the excepted addresses stay closed.
+func AddEverybodyPlusHoledRangeRule(r *rng.R, w *World) bool {
+	if len(w.Workloads) == 0 {
+		return false
+	}
+	x := rng.Pick(r, w.Workloads)
+	block := "0.0.0.0/0"
+	if r.P(0.25) {
+		block = "10.0.0.0/8"
+	}
+	var ex []string
+	for _, e := range []string{"10.1.0.0/16", "10.1.2.0/24", "192.168.0.0/16", "10.1.2.3/32"} {
+		if within(e, block) && e != block && r.P(0.5) {
+			ex = append(ex, e)
+		}
+	}
+	if len(ex) == 0 {
+		ex = []string{"10.1.2.0/24"}
+	}
+	peers := []NPPeer{{NsSel: &Sel{}}, {IPBlock: &IPB{CIDR: block, Except: ex}}}
+	if r.P(0.5) {
+		peers[0], peers[1] = peers[1], peers[0]
+	}
+	rule := NPRule{Peers: peers}
+	if r.P(0.25) {
+		rule.Ports = []NPPort{{Proto: "TCP", Port: 80}}
+	}
+	np := NetPol{Ns: x.Ns, Name: "everybody-and-holed-range", PodSel: *SelFor(r, x.Labels), HasTypes: true}
+	for _, o := range w.NetPols {
+		if o.Ns == np.Ns && o.Name == np.Name {
+			return false
+		}
+	}
+	if r.P(0.6) {
+		np.Egress, np.PolicyTypes = []NPRule{rule}, []string{"Egress"}
+	} else {
+		np.Ingress, np.PolicyTypes = []NPRule{rule}, []string{"Ingress"}
+	}
+	w.NetPols = append(w.NetPols, np)
+	w.AddFeature("everybodyPlusHoledRange")
+	w.AddFeature("ipBlock")
+	w.AddFeature("except")
+	return true
+}
